@@ -1250,60 +1250,92 @@ func c11CondOrder(p *core.Program, r *core.Report, m *c11Model, nk *eng.NodeKind
 		r.Unk("R11.6", key, p.Pos(fd.Pos()), "the conditional builder takes no node parameter")
 		return
 	}
+	// every path is interpreted over abstract node values: the incoming node, the result of
+	// the k-th call of the climbing function on the path, a conditional literal built on the
+	// path (its three slots filled in the literal or field by field afterwards)
+	type av struct {
+		kind string // in climb lit other
+		id   int
+	}
+	type rec struct {
+		slots map[string]av
+		cond  av // what the carried node was when the literal was built
+		pos   token.Pos
+	}
 	paths := flattenPaths((&eng.Walker{Info: info, MaxPaths: 4000}).Func(fd.Body), 20000)
 	n := 0
 	for _, atoms := range paths {
-		// order of the last definitions of each variable
-		lastDef := map[types.Object]int{}
-		fromClimb := map[types.Object]bool{}
-		for i, a := range atoms {
-			if a.Kind != "assign" {
-				continue
+		val := map[types.Object]av{nodeParam: {"in", 0}}
+		ord := map[*ast.CallExpr]int{}
+		nClimb := 0
+		var recs []*rec
+		var eval func(e ast.Expr) av
+		eval = func(e ast.Expr) av {
+			e = eng.Unparen(e)
+			if cl, kk := nodeLit(nk, info, e); cl != nil && kk == k {
+				rc := &rec{slots: map[string]av{}, cond: val[nodeParam], pos: cl.Pos()}
+				for _, el := range cl.Elts {
+					if kv, ok := el.(*ast.KeyValueExpr); ok {
+						rc.slots[eng.ExprStr(kv.Key)] = eval(kv.Value)
+					}
+				}
+				recs = append(recs, rc)
+				return av{"lit", len(recs) - 1}
 			}
-			as := a.Node.(*ast.AssignStmt)
-			if len(as.Lhs) != len(as.Rhs) {
-				continue
+			switch x := e.(type) {
+			case *ast.Ident:
+				if v, ok := val[objOf(info, x)]; ok {
+					return v
+				}
+			case *ast.CallExpr:
+				if eng.CalleeOf(info, x) == m.climbFn {
+					if o, ok := ord[x]; ok {
+						return av{"climb", o}
+					}
+				}
 			}
-			for j, l := range as.Lhs {
-				id, ok := l.(*ast.Ident)
-				if !ok {
+			return av{"other", 0}
+		}
+		for _, a := range atoms {
+			switch a.Kind {
+			case "call":
+				if a.Call != nil && eng.CalleeOf(info, a.Call) == m.climbFn {
+					nClimb++
+					ord[a.Call] = nClimb
+				}
+			case "assign":
+				as := a.Node.(*ast.AssignStmt)
+				if len(as.Lhs) != len(as.Rhs) {
 					continue
 				}
-				o := objOf(info, id)
-				if cl, kk := nodeLit(nk, info, as.Rhs[j]); cl != nil && kk == k {
-					n++
-					vals := map[string]ast.Expr{}
-					for _, el := range cl.Elts {
-						if kv, ok := el.(*ast.KeyValueExpr); ok {
-							vals[eng.ExprStr(kv.Key)] = kv.Value
+				for j, l := range as.Lhs {
+					switch lx := eng.Unparen(l).(type) {
+					case *ast.Ident:
+						val[objOf(info, lx)] = eval(as.Rhs[j])
+					case *ast.SelectorExpr:
+						if id, ok := eng.Unparen(lx.X).(*ast.Ident); ok {
+							if v := val[objOf(info, id)]; v.kind == "lit" {
+								recs[v.id].slots[lx.Sel.Name] = eval(as.Rhs[j])
+							}
 						}
 					}
-					s0, s1, s2 := vals[k.Slots[0].Name], vals[k.Slots[1].Name], vals[k.Slots[2].Name]
-					id0, _ := s0.(*ast.Ident)
-					id1, _ := s1.(*ast.Ident)
-					id2, _ := s2.(*ast.Ident)
-					if id0 == nil || id1 == nil || id2 == nil {
-						r.Unk("R11.6", key, p.Pos(cl.Pos()), "a child slot of the conditional literal is not a plain variable")
-						return
-					}
-					o0, o1, o2 := objOf(info, id0), objOf(info, id1), objOf(info, id2)
-					if o0 != nodeParam || o != nodeParam {
-						r.Bad("R11.6", key, p.Pos(cl.Pos()), "the first child of the conditional is not the expression parsed before the `?`, or the result is not carried on")
-						return
-					}
-					if !fromClimb[o2] || !(fromClimb[o1] || o1 == nodeParam || lastDefIs(atoms[:i], info, o1, nodeParam)) {
-						r.Bad("R11.6", key, p.Pos(cl.Pos()), "the branches of the conditional are not the results of the two parses following `?` and `:`")
-						return
-					}
-					if fromClimb[o1] && lastDef[o1] >= lastDef[o2] {
-						r.Bad("R11.6", key, p.Pos(cl.Pos()), "the second child of the conditional is parsed after the third: `c ? a : b` would swap its branches")
-						return
-					}
-					continue
 				}
-				lastDef[o] = i
-				c, isCall := eng.Unparen(as.Rhs[j]).(*ast.CallExpr)
-				fromClimb[o] = isCall && eng.CalleeOf(info, c) == m.climbFn
+			}
+		}
+		for i, rc := range recs {
+			n++
+			s0, s1, s2 := rc.slots[k.Slots[0].Name], rc.slots[k.Slots[1].Name], rc.slots[k.Slots[2].Name]
+			if s0 != rc.cond || rc.cond.kind == "other" || val[nodeParam] != (av{"lit", i}) {
+				r.Bad("R11.6", key, p.Pos(rc.pos), "the first child of the conditional is not the expression parsed before the `?`, or the result is not carried on")
+				return
+			}
+			if s2.kind != "climb" || !(s1.kind == "climb" || s1 == rc.cond) {
+				r.Bad("R11.6", key, p.Pos(rc.pos), "the branches of the conditional are not the results of the two parses following `?` and `:`")
+				return
+			}
+			if s1.kind == "climb" && s1.id >= s2.id {
+				r.Bad("R11.6", key, p.Pos(rc.pos), "the second child of the conditional is parsed after the third: `c ? a : b` would swap its branches")
+				return
 			}
 		}
 	}
